@@ -395,7 +395,7 @@ func (e *Engine) corePrelude() {
 (declare-fun impl_ext (Int Int) Bool)
 (declare-fun str_cat (Str Str) Str)
 (declare-fun str_contains_any (Str Str) Bool)`)
-	e.d.addAxiom("core", "slen_nonneg", "(forall ((s Str)) (! (>= (slen s) 0) :pattern ((slen s))))")
+	e.d.addAxiom("core", "slen_nonneg", "(forall ((s Str)) (! (and (>= (slen s) 0) (<= (slen s) 9223372036854775807)) :pattern ((slen s))))")
 	e.d.addAxiom("core", "str_cat_len", "(forall ((a Str) (b Str)) (! (= (slen (str_cat a b)) (+ (slen a) (slen b))) :pattern ((str_cat a b))))")
 }
 
